@@ -246,11 +246,8 @@ def run(ctx, col: Collector):
                       f'index type vocabulary {sorted(texts)} differs from {nm} {sorted(oracle)}: extra={sorted(texts - oracle)} '
                       f'missing={sorted(oracle - texts)}', node=_N(first) if first else None, file=first.file if first else '')
         # relation operators
-        consts = {}
-        cm = idx.module('pydbml.constants')
-        for st in cm.tree.body:
-            if isinstance(st, ast.Assign) and isinstance(st.value, ast.Constant) and isinstance(st.value.value, str):
-                consts[st.targets[0].id] = st.value.value
+        from .c18 import const_names
+        consts = const_names(ctx)        # the relation-kind constants (spelled with the operator characters)
         for fname in ('parse_ref', 'parse_inline_relation'):
             nodes = [x for g in gm.nodes_with_action(fname) for x in named_nodes(g, 'type')]
             col.floor('C07-vocab', f'{fname} operator slot', len(nodes), 1)
